@@ -32,6 +32,20 @@ type RTCase struct {
 	// a stale traceparent and tracestate (forwarded headers), 2 another span
 	// context was injected into it just before. Inject replaces the headers.
 	Dirty int `json:"dirty,omitempty"`
+	// Pre: what the carrier's underlying storage (http.Header / map) holds
+	// before anything else happens: entries under any spelling of the trace
+	// header names and under unrelated names, stored verbatim, through
+	// http.Header.Add or through the carrier's Set (see carrier_test.go).
+	Pre []PreEntry `json:"pre,omitempty"`
+	// Prop: form of the propagator (see forms_test.go): direct | composite |
+	// baggage_first | baggage_last | nested. Empty = direct.
+	Prop string `json:"prop,omitempty"`
+	// SCVia "with": the span context is put together by the With* methods in
+	// the order WithOrder (permutation of 0..4) instead of one config.
+	SCVia     string `json:"sc_via,omitempty"`
+	WithOrder []int  `json:"with_order,omitempty"`
+	// Hops: further services that edit the tracestate and inject again.
+	Hops []Hop `json:"hops,omitempty"`
 }
 
 func genNonZeroID(n int) *rapid.Generator[string] {
@@ -70,10 +84,17 @@ func genRT(t *rapid.T) RTCase {
 	c.Remote = rapid.Bool().Draw(t, "remote")
 	c.Members = genValidMembers(0, 1, 2, 31, 32, 32).Draw(t, "tracestate")
 	c.Build = rapid.SampledFrom([]string{"parse", "insert"}).Draw(t, "build")
-	c.Carrier = rapid.SampledFrom([]string{"map", "map", "header"}).Draw(t, "carrier")
+	c.Carrier = rapid.SampledFrom([]string{"map", "header"}).Draw(t, "carrier")
 	c.Prior = rapid.Bool().Draw(t, "prior")
 	c.PriorSame = rapid.SampledFrom([]int{0, 0, 0, 1, 2, 3}).Draw(t, "prior_same")
 	c.Dirty = rapid.SampledFrom([]int{0, 0, 0, 1, 2}).Draw(t, "dirty_carrier")
+	c.Pre = genPre().Draw(t, "carrier_pre_state")
+	c.Prop = rapid.SampledFrom(propForms).Draw(t, "propagator_form")
+	if rapid.Bool().Draw(t, "sc_by_with_methods") {
+		c.SCVia = "with"
+		c.WithOrder = rapid.Permutation([]int{0, 1, 2, 3, 4}).Draw(t, "with_order")
+	}
+	c.Hops = genHops(c.Members).Draw(t, "hops")
 	return c
 }
 
@@ -170,11 +191,20 @@ func runRT(c RTCase) ([]vk.Violation, vk.Info) {
 		bad("tracestate_string", "TraceState built (%s) from %q: String() = %q, Len() = %d", c.Build, wantTS, ts.String(), ts.Len())
 	}
 
-	sc := trace.NewSpanContext(trace.SpanContextConfig{
+	sc := buildSC(trace.SpanContextConfig{
 		TraceID: trace.TraceID(tid), SpanID: trace.SpanID(sid), TraceFlags: trace.TraceFlags(c.Flags), TraceState: ts, Remote: c.Remote,
-	})
-	prop := propagation.TraceContext{}
-	carrier := newCarrier(c.Carrier)
+	}, c.SCVia, c.WithOrder)
+	info.ClassIf(c.SCVia == "with", "span_context_built_by_with_methods")
+	prop := newProp(c.Prop)
+	info.ClassIf(c.Prop != "" && c.Prop != "direct", "composite_propagator")
+	info.ClassIf(c.Prop == "baggage_first" || c.Prop == "baggage_last" || c.Prop == "nested", "baggage_neighbour")
+	st := newStore(c.Carrier)
+	for _, e := range c.Pre {
+		st.apply(e)
+	}
+	st.classify(c.Pre, &info)
+	carrier := st.carrier()
+	pre := describePre(c.Pre)
 	// (A span context WITHOUT tracestate makes Inject write no tracestate
 	// header at all, so a stale one would stay: the stale tracestate is only
 	// put there when the injected context has one of its own to replace it.)
@@ -193,19 +223,28 @@ func runRT(c RTCase) ([]vk.Violation, vk.Info) {
 		prop.Inject(trace.ContextWithSpanContext(context.Background(), stale), carrier)
 	}
 	info.ClassIf(c.Dirty != 0, "carrier_already_holds_trace_headers")
-	prop.Inject(trace.ContextWithSpanContext(context.Background(), sc), carrier)
+	// Reading (see the package comment): a TextMapCarrier has no way to delete
+	// a field, and Inject writes no tracestate header for a span context
+	// without tracestate. A stale tracestate that the carrier's addressing
+	// reaches therefore stays when nothing replaces it; the tracestate clause
+	// is not judged for that combination (ids and flags still are).
+	staleTS := len(c.Members) == 0 && st.field("tracestate") != ""
+	info.ClassIf(staleTS, "stale_tracestate_reachable_and_none_injected(tracestate_not_judged)")
+	prop.Inject(trace.ContextWithSpanContext(withBaggage(context.Background()), sc), carrier)
 
 	wantTP := refFormatTraceparent(tid, sid, sampled)
 	gotTP := carrier.Get("traceparent")
 	if gotTP != wantTP {
-		bad("injected_traceparent", "Inject wrote traceparent %q, a version-00 sender must write %q (flags %#02x)", gotTP, wantTP, c.Flags)
+		bad("injected_traceparent", "after Inject carrier.Get(\"traceparent\") = %q (the %s itself holds %q there), a version-00 sender must write %q (flags %#02x)%s",
+			gotTP, c.Carrier, st.field("traceparent"), wantTP, c.Flags, pre)
 	}
 	if _, why := strictInjectedTraceparent(gotTP); why != "" {
-		bad("injected_traceparent_grammar", "Inject wrote traceparent %q: %s", gotTP, why)
+		bad("injected_traceparent_grammar", "Inject wrote traceparent %q: %s%s", gotTP, why, pre)
 	}
 	gotTSH := carrier.Get("tracestate")
-	if gotTSH != wantTS {
-		bad("injected_tracestate", "Inject wrote tracestate %q, span context holds %q", gotTSH, wantTS)
+	if gotTSH != wantTS && !staleTS {
+		bad("injected_tracestate", "after Inject carrier.Get(\"tracestate\") = %q (the %s itself holds %q there), span context holds %q%s",
+			gotTSH, c.Carrier, st.field("tracestate"), wantTS, pre)
 	}
 
 	base := baseContext(c.Prior)
@@ -226,17 +265,17 @@ func runRT(c RTCase) ([]vk.Violation, vk.Info) {
 	}
 	switch {
 	case c.PriorSame == 0 && got.Equal(trace.SpanContextFromContext(base)):
-		bad("roundtrip_not_extracted", "Extract left the context untouched for traceparent %q tracestate %q", gotTP, gotTSH)
+		bad("roundtrip_not_extracted", "Extract left the context untouched for traceparent %q tracestate %q%s", gotTP, gotTSH, pre)
 		return vs, info
 	}
 	if got.TraceID() != trace.TraceID(tid) {
-		bad("roundtrip_trace_id", "trace id %s injected, %s extracted", c.TraceID, got.TraceID())
+		bad("roundtrip_trace_id", "trace id %s injected, %s extracted%s", c.TraceID, got.TraceID(), pre)
 	}
 	if got.SpanID() != trace.SpanID(sid) {
-		bad("roundtrip_span_id", "span id %s injected, %s extracted", c.SpanID, got.SpanID())
+		bad("roundtrip_span_id", "span id %s injected, %s extracted%s", c.SpanID, got.SpanID(), pre)
 	}
 	if got.IsSampled() != sampled {
-		bad("roundtrip_sampled", "flags %#02x injected (sampled %v), extracted flags %s", c.Flags, sampled, got.TraceFlags())
+		bad("roundtrip_sampled", "flags %#02x injected (sampled %v), extracted flags %s%s", c.Flags, sampled, got.TraceFlags(), pre)
 	}
 	if !got.IsRemote() {
 		bad("roundtrip_not_remote", "the extracted span context is not marked remote")
@@ -244,9 +283,17 @@ func runRT(c RTCase) ([]vk.Violation, vk.Info) {
 	if !got.IsValid() {
 		bad("roundtrip_invalid", "the extracted span context reports IsValid() == false")
 	}
+	// the same span context is found through the other accessor
+	if viaSpan := trace.SpanFromContext(out).SpanContext(); !viaSpan.Equal(got) {
+		bad("extracted_span_context_differs_between_accessors", "SpanContextFromContext gives %s tracestate %q, SpanFromContext(ctx).SpanContext() gives %s tracestate %q",
+			scSummary(got), got.TraceState().String(), scSummary(viaSpan), viaSpan.TraceState().String())
+	}
 	gts := got.TraceState()
+	if staleTS {
+		return vs, info
+	}
 	if gts.String() != wantTS || gts.Len() != len(c.Members) {
-		bad("roundtrip_tracestate", "tracestate %q injected, %q (Len %d) extracted", wantTS, gts.String(), gts.Len())
+		bad("roundtrip_tracestate", "tracestate %q injected, %q (Len %d) extracted%s", wantTS, gts.String(), gts.Len(), pre)
 	} else {
 		for _, m := range c.Members {
 			if gts.Get(m.K) != m.V {
@@ -263,6 +310,9 @@ func runRT(c RTCase) ([]vk.Violation, vk.Info) {
 		bad("second_hop_differs", "re-injecting the extracted context wrote traceparent %q tracestate %q, first hop %q / %q",
 			carrier2.Get("traceparent"), carrier2.Get("tracestate"), wantTP, wantTS)
 	}
+	if len(vs) == 0 {
+		runHops(prop, out, tid, model(c.Members).clone(), c.Hops, &info, bad)
+	}
 	return vs, info
 }
 
@@ -270,7 +320,9 @@ func TestRoundTrip(t *testing.T) {
 	vk.Run(t, vk.Spec[RTCase]{
 		Property: "C03", Check: "roundtrip",
 		Rule: "valid span contexts: non-zero ids (random and corner patterns), flags 0..255, 0..32 ABNF-valid unique tracestate members (simple and multi-tenant keys, 255/256-byte keys, 241@14 tenants, 255/256-byte values, inner blanks) " +
-			"built by ParseTraceState or by Insert, injected into a map or http.Header carrier and extracted into a context with or without a prior span; " +
+			"built by ParseTraceState or by Insert, put into a span context by one config or by the With* methods in a drawn order, injected by the bare TraceContext or a composite (with a Baggage neighbour before / after / nested) into a map or http.Header carrier " +
+			"that is new or pre-filled (0..5 entries under any case spelling of traceparent / tracestate and unrelated names; stored verbatim in the underlying map, through http.Header.Add or through the carrier's Set; 0..3 field lines; stale valid, malformed and empty values) and extracted into a context with or without a prior span; " +
+			"then 0..3 further hops (new span id and flags, 0..3 tracestate inserts / updates / deletes, fresh carrier) against the reference model; " +
 			"non-trivial = tracestate non-empty or flags != 0; distinct = distinct case encodings",
 		Quick: 12000, Thorough: 150000,
 		Gen: genRT, Run: runRT,
